@@ -17,6 +17,8 @@ case "$P-$M" in
   C15-M3) FEAT="--features index-positions";;
   C15-M4) FEAT="--features prohibit-unsafe";;
   C15-M5) FEAT="--features utf16";;
+  C15-M6) FEAT="--features utf16";;
+  C15-M7) FEAT="--features prohibit-unsafe";;
   C20-*) FEAT="--features pattern"; TC="+nightly";;
 esac
 suite=$(cargo test --workspace --no-fail-fast --offline 2>&1 | grep -E "^test result" | awk '{p+=$4; f+=$6} END {print p" passed "f" failed"}')
